@@ -509,7 +509,7 @@ def exhaustive(ctx, chi):
 
 def run(ctx):
     chi = core.import_chi()
-    n = 250 if ctx.tier == 'quick' else 2500
+    n = 250 if ctx.tier == 'quick' else 7000
     for i in range(n):
         rng = ctx.sub_rng(i)
         A = ADAPTERS[i % len(ADAPTERS)]
